@@ -4,7 +4,9 @@ import json, os
 H='/repo/ipld/unixfs/hamt/hamt.go'; D='/repo/ipld/unixfs/io/directory.go'
 OUT='/verif/.work/mut-c16'
 def mk(name, path, old, new):
-    s=open(path).read(); assert s.count(old)==1, (name, s.count(old))
+    s=open(path).read()
+    if name=='fix' and s.count(old)==0: print('fix already in /repo, skipped'); return
+    assert s.count(old)==1, (name, s.count(old))
     d=f'{OUT}/{name}'; os.makedirs(d, exist_ok=True)
     f=f'{d}/'+os.path.basename(path); open(f,'w').write(s.replace(old,new))
     json.dump({"Replace":{path:f}}, open(f'{d}/ov.json','w'))
